@@ -809,6 +809,108 @@ def generate_smp(repo=None):
     return HEADER_SMP % ("rockit/sampling_method.py", hashlib.sha256(src.encode()).hexdigest()[:16]) + body + "\nEnd GenSmp.\n"
 
 
+# ------------------------------------------------------------------ first pass of the shooting transcriptions
+def _cg(e):
+    """self.control_grid[k] / [k + 1] and differences of them"""
+    src = ast.unparse(e)
+    if src == "self.control_grid[k]":
+        return "(nth k cg o0)"
+    if src == "self.control_grid[k + 1]":
+        return "(nth (S k) cg o0)"
+    if isinstance(e, ast.BinOp) and isinstance(e.op, ast.Sub):
+        return "(%s -! %s)" % (_cg(e.left), _cg(e.right))
+    _fail(e, "control-grid expression")
+
+
+def translate_shoot(tree, cls, coqname):
+    fn = _find_method(tree, cls, "add_constraints")
+    loops = [s_ for s_ in fn.body if isinstance(s_, ast.For) and ast.unparse(s_.iter) == "range(self.N)"]
+    if len(loops) != 2:
+        _fail(fn, cls + ": two loops over the control intervals expected")
+    first, second = loops
+    single = False
+    seen = {}
+    order = []
+    IGNORED = ("poly_coeff_temp = FF['poly_coeff']", "poly_coeff_q_temp = FF['poly_coeff_q']", "poly_coeff_z_temp = FF['poly_coeff_z']",
+               "zk_temp = FF['Zi']", "self.zk.extend([zk_temp[:, i] for i in range(self.M)])", "self.Z.append(FF['zf'])")
+    for st in first.body:
+        src = ast.unparse(st)
+        if isinstance(st, ast.Assign) and ast.unparse(st.targets[0]) == "FF" and _is_call(st.value, "F"):
+            kw = {k.arg: k.value for k in st.value.keywords}
+            if set(kw) != {"x0", "u", "t0", "T", "p", "z0"} or ast.unparse(kw["x0"]) != "self.X[k]" or ast.unparse(kw["u"]) != "self.U[k]" \
+                    or ast.unparse(kw["p"]) != "self.get_p_sys(stage, k)":
+                _fail(st, cls + ": call of the discretised system")
+            seen["t0"], seen["T"] = _cg(kw["t0"]), _cg(kw["T"])
+        elif src == "self.X[k + 1] = FF['xf']":
+            single = True
+        elif src == "xk_temp = FF['Xi']":
+            seen["xk_temp"] = True
+        elif src == "xqk_temp = self.q + FF['Qi']":
+            seen["xqk_temp"] = True
+        elif src == "self.xk.extend([xk_temp[:, i] for i in range(self.M)])":
+            seen["xk"] = True
+        elif src == "self.xqk.extend([xqk_temp[:, i] for i in range(self.M)])":
+            seen["xqk"] = True
+        elif src == "self.q = self.q + FF['qf']":
+            seen["q"] = True
+        elif src == "self.Q[k + 1] = self.q":
+            if "q" not in seen:
+                _fail(st, cls + ": Q[k+1] stored before the quadrature is advanced")
+            seen["Q"] = True
+        elif src == "FFs.append(FF)":
+            seen["FFs"] = True
+        elif src in IGNORED or src.startswith(("if k == 0:\n    self.Z.append(zk_temp[:, 0])", "if self.poly_coeff")):
+            pass        # algebraic / dense-output bookkeeping: dense output is tied through discrete_system's outputs
+        else:
+            _fail(st, cls + ": statement of the first pass")
+        order.append(src)
+    for k_ in ("t0", "T", "xk_temp", "xqk_temp", "xk", "xqk", "q", "Q", "FFs"):
+        if k_ not in seen:
+            raise Untranslatable("%s.add_constraints: first pass lacks %s" % (cls, k_))
+    if order.index("xqk_temp = self.q + FF['Qi']") > order.index("self.q = self.q + FF['qf']"):
+        raise Untranslatable(cls + ": integrator-point quadratures computed after the quadrature was advanced")
+    after = [ast.unparse(s_) for s_ in fn.body]
+    if "self.xk.append(self.X[-1])" not in after:
+        raise Untranslatable(cls + ": final integrator state not appended")
+    gap = [ast.unparse(s_) for s_ in second.body if ast.unparse(s_).startswith("opti.subject_to(self.X[k + 1]")]
+    if single:
+        if gap:
+            raise Untranslatable(cls + ": single shooting with gap-closing rows")
+    elif gap != ["opti.subject_to(self.X[k + 1] == FF['xf'], scale=scale_x)"] or "FF = FFs[k]" not in [ast.unparse(s_) for s_ in second.body]:
+        raise Untranslatable(cls + ": gap-closing row %r" % gap)
+    x0 = "last (a_X a) []" if single else "nth k (p_X pt) []"
+    return ("Definition %s (oc : ocp) (pt : point F) (cg : list F) (a : shoot_acc F) (k : nat) : shoot_acc F :=\n"
+            "  let M := m_M (o_method oc) in\n"
+            "  let xk := %s in\n"
+            "  let ff := discrete_system (step_of oc pt k) M (length (o_quad oc)) xk %s %s in\n"
+            "  let xqk_temp := map (vadd (a_q a)) (ds_Q ff) in\n"
+            "  let q' := vadd (a_q a) (ds_quad ff) in\n"
+            "  {| a_X := a_X a ++ [ds_xf xk ff]; a_q := q'; a_Q := a_Q a ++ [q'];\n"
+            "     a_xk := a_xk a ++ firstn M (ds_X ff); a_xqk := a_xqk a ++ xqk_temp; a_FF := a_FF a ++ [ff] |}.\n"
+            "Definition %s_has_gap_rows : bool := %s.\n" % (coqname, x0, seen["T"], seen["t0"], coqname, "false" if single else "true"))
+
+
+HEADER_SH = """(* GENERATED on every run by harness/translate.py from %s.  Do not edit. *)
+From Coq Require Import ZArith QArith List Bool.
+From RV Require Import Base.Num Base.PyList Base.Vec Expr Ocp Rows Mech.Grid Mech.Intg Mech.Sampling Mech.Shooting.
+Import ListNotations.
+
+Section GenShoot.
+Context {F : Type} {OF : Ops F}.
+
+"""
+
+
+def generate_shoot(repo=None):
+    repo = repo or REPO
+    parts, srcs = [], []
+    for fname, cls, coqname in (("multiple_shooting.py", "MultipleShooting", "gen_ms_step"), ("single_shooting.py", "SingleShooting", "gen_ss_step")):
+        src = open(os.path.join(repo, "rockit", fname)).read()
+        srcs.append("rockit/%s (sha256 %s)" % (fname, hashlib.sha256(src.encode()).hexdigest()[:16]))
+        parts.append(translate_shoot(ast.parse(src), cls, coqname))
+    return HEADER_SH % " and ".join(srcs) + "\n".join(parts) + "\nEnd GenShoot.\n"
+
+
 HEADER = """(* GENERATED on every run by harness/translate.py from %s (sha256 %s).
    Do not edit: the file is rewritten from the working tree before Tie/IntgTie.v is checked. *)
 From Coq Require Import ZArith QArith List.
@@ -869,6 +971,7 @@ TIES = {
     "Intg": (generate, "IntgGen.v", "IntgTie.v"),
     "Dc": (generate_dc, "DcGen.v", "DcTie.v"),
     "Smp": (generate_smp, "SmpGen.v", "SmpTie.v"),
+    "Shoot": (generate_shoot, "ShootGen.v", "ShootTie.v"),
 }
 
 
